@@ -46,7 +46,7 @@ def build_cases(tier):
         c["kind"] = "unequal"
     # durations of k hours (k = 1..11) for every duration parameter of a plant, on an hourly grid, in every unit
     dur = []
-    for param in ("min_runtime", "min_downtime", "time_already_running", "time_already_off"):
+    for param in ("min_runtime", "min_downtime", "time_already_running", "time_already_off", "max_store_duration"):
         for k in range(1, 12):
             c = dict(kind="durations", param=param, hours=k)
             c["key"] = chash(c)
@@ -80,7 +80,11 @@ def run_durations(case):
         p[3] = 9.0
         p[8] = 9.0
         a = dict(type="Plant", name="pl", nodes=["n1"], price="fuelc", min_cap=S.r(2.0, g), max_cap=S.r(4.0, g))
-        if param == "min_runtime":
+        if param == "max_store_duration":
+            a = dict(type="Storage", name="pl", nodes=["n1"], size=6.0, cap_in=S.r(2.0, g), cap_out=S.r(2.0, g), start_level=0.0, end_level=0.0,
+                     max_store_duration=S.d_(k, g))
+            p = [1.0, 2.0, 3.0, 4.0, 5.0, 6.0, 7.0, 8.0, 9.0, 10.0, 11.0, 12.0]
+        elif param == "min_runtime":
             a.update(min_runtime=S.d_(k, g), time_already_off=S.d_(20, g))
         elif param == "min_downtime":
             a.update(min_downtime=S.d_(k, g), time_already_running=S.d_(20, g), min_runtime=S.d_(2, g))
